@@ -73,6 +73,7 @@ type frame struct {
 	ords        map[ssa.Instruction]string
 	callIdx     map[string]ssa.CallInstruction
 	pseudoSites map[string]bool // map updates / lookups addressable like call sites
+	pseudoVals  map[string]ssa.Value // map lookups: the value read (for `let x := call[maplookup#k]`)
 	inlined     bool
 	depth       int
 }
@@ -106,6 +107,8 @@ type FnExec struct {
 	owned         map[Term]bool
 	wraps         map[Term]Val        // wrapper object -> the object it reads / writes through
 	hw            Term                // current allocation watermark: every object allocated so far has an id <= hw
+	memVersion    int            // bumped whenever slice contents may have changed (element store, call, loop head)
+	elemCache     map[string]Val // scalar slice elements read in the current memVersion
 	guardPtr      map[ssa.Value]*guardRec // address of a use-guarded field
 	guardedVals   map[Term]*guardRec      // object loaded from a use-guarded field
 	boxed         map[Term]Val        // interface value term -> the boxed pointer value (pointers to local cells)
@@ -728,7 +731,7 @@ func (fe *FnExec) load(st *State, p PtrV) Val {
 		return r
 	}
 	if p.ElemOf != nil {
-		return fe.freshVal(p.Pointee, "elem")
+		return fe.elemLoad(*p.ElemOf, p.Idx, p.Pointee)
 	}
 	return fe.loadHeap(st, p.Prefix, p.Base, p.Pointee)
 }
@@ -743,9 +746,25 @@ func (fe *FnExec) store(st *State, p PtrV, v Val) {
 		return
 	}
 	if p.ElemOf != nil {
-		return // slice contents are not tracked
+		fe.memVersion++ // slice contents are not tracked: forget what was read from any slice
+		return
 	}
 	fe.storeHeap(st, p.Prefix, p.Base, p.Pointee, v)
+}
+
+// elemLoad: the value of a scalar slice element.  Slice contents are not modelled, but two reads of the same
+// element with no store to any slice, no call and no loop head in between see the same value.
+func (fe *FnExec) elemLoad(sl SliceV, idx Term, t types.Type) Val {
+	if _, isInt := intKindOf(t); !isInt && !isBool(t) {
+		return fe.freshVal(t, "elem")
+	}
+	key := fmt.Sprintf("%d|%s|%s", fe.memVersion, sl.Ref, idx)
+	if v, ok := fe.elemCache[key]; ok {
+		return v
+	}
+	v := fe.freshVal(t, "elem")
+	fe.elemCache[key] = v
+	return v
 }
 
 // ---------------------------------------------------------------------------
@@ -841,6 +860,7 @@ func (fe *FnExec) assignOrdinals(fr *frame) {
 				if _, isMap := x.X.Type().Underlying().(*types.Map); isMap {
 					fr.ords[in] = fmt.Sprintf("maplookup#%d", next("maplookup"))
 					fr.pseudoSites[fr.ords[in]] = true
+					fr.pseudoVals[fr.ords[in]] = x
 				}
 			case *ssa.MakeSlice:
 				fr.ords[in] = fmt.Sprintf("alloc[%d]", next("alloc"))
@@ -908,7 +928,7 @@ func calleeShortName(cc *ssa.CallCommon, in *ssa.Function) string {
 }
 
 func (fe *FnExec) newFrame(fn *ssa.Function, con *Contract, name string) *frame {
-	fr := &frame{fn: fn, con: con, name: name, out: map[*ssa.BasicBlock]*State{}, loops: map[*ssa.BasicBlock]*loopInfo{}, binds: map[string]Val{}, ords: map[ssa.Instruction]string{}, callIdx: map[string]ssa.CallInstruction{}, pseudoSites: map[string]bool{}}
+	fr := &frame{fn: fn, con: con, name: name, out: map[*ssa.BasicBlock]*State{}, loops: map[*ssa.BasicBlock]*loopInfo{}, binds: map[string]Val{}, ords: map[ssa.Instruction]string{}, callIdx: map[string]ssa.CallInstruction{}, pseudoSites: map[string]bool{}, pseudoVals: map[string]ssa.Value{}}
 	fe.findLoops(fr)
 	fe.assignOrdinals(fr)
 	return fr
@@ -1219,6 +1239,7 @@ func (fe *FnExec) enterLoop(fr *frame, li *loopInfo, st *State) {
 		}
 	}
 	li.headState = st.clone()
+	fe.memVersion++
 	if li.spec != nil && li.spec.Decreases != nil {
 		ctx := fe.ctxFor(fr, st)
 		li.dec0 = termOf(ctx.eval(li.spec.Decreases.E))
